@@ -282,6 +282,22 @@ def _dispatcher(run, ev):
     project = run.project
     f = project.fn(PYR + ".Pyramid._walk_parallel")
     run.note_func(f)
+    # a polling helper ("get the next completion report, checking on the workers while waiting") is part of the dispatch loop:
+    # it is spliced into the dispatcher, its `return <received>` becoming `pos = <received>; break` out of its polling loop
+    from sa.model import inline_helpers as _inline_helpers
+
+    def _receivers(owner, call):
+        g = common.resolve_callee(project, owner, call)
+        if g is None or g.qual == f.qual:
+            return None
+        eff = common.summarize(project, g)
+        return g if any("get" in es for p_, es in eff.items() if p_ != "<fn>") else None
+    try:
+        f_flat = _inline_helpers(project, f, _receivers)
+    except Exception:
+        f_flat = f
+    if f_flat is not f:
+        f = f_flat
     r = ev.run(f.node)
     stages = [s for s in common.discover_stages(project) if s.func.qual == f.qual]
     if not stages:
@@ -306,7 +322,31 @@ def _dispatcher(run, ev):
         return
     done_q = get_events[0].term[1][1][1]
     got = get_events[0].term            # the received position, as a term
-    get_loop = [c[1] for c in get_events[0].pc if c[0] == "loop"][-1]
+    get_loops = [c[1] for c in get_events[0].pc if c[0] == "loop"]
+    get_loop = get_loops[-1]
+    # `pos = q.get(..); break` inside a spliced polling loop: after that loop `pos` *is* the received item
+    inner_k = get_loops[-1]
+    names_ = [e_.term[1][0][1] for e_ in r.events if e_.kind == "assign" and e_.term[1][1] == got and e_.term[1][0][0] == "sym"]
+    if names_ and len(get_loops) > 1:
+        alias = ("sym", "%s@A%d" % (names_[0].split("@")[0], inner_k))
+
+        def _sub(t):
+            if t == alias:
+                return got
+            if isinstance(t, tuple):
+                return tuple(_sub(x) if isinstance(x, tuple) else x for x in t)
+            return t
+        for e_ in r.events:
+            e_.term = _sub(e_.term)
+            e_.pc = tuple(_sub(c_) if isinstance(c_, tuple) else c_ for c_ in e_.pc)
+            if e_.extra is not None and isinstance(e_.extra, tuple):
+                e_.extra = _sub(e_.extra)
+    # the dispatch loop is the innermost loop around the receive that also releases tiles; a polling loop spliced in from a
+    # receive helper (try: get; break / except Empty: check) sits inside it
+    for k_ in reversed(get_loops):
+        if any(("loop", k_) in e_.pc for e_ in put_events):
+            get_loop = k_
+            break
     disp_puts = [e for e in put_events if ("loop", get_loop) in e.pc]
     seed_puts = [e for e in put_events if ("loop", get_loop) not in e.pc]
     parent = ("nt", "Pos", (_spec(ev, "p.n - 1", p=got), _spec(ev, "p.x // 2", p=got), _spec(ev, "p.y // 2", p=got)))
@@ -325,7 +365,16 @@ def _dispatcher(run, ev):
             if c[0] == "op" and c[1].startswith("cmp:"):
                 rel = (c, pol)
         verdict = None
-        if arg != parent:
+        def _wg(t):
+            if t == got:
+                return ("sym", "RECEIVED")
+            if isinstance(t, tuple):
+                return tuple(_wg(x) if isinstance(x, tuple) else x for x in t)
+            return t
+        if arg != parent and (arg is None or common.unfollowed_project_calls(project, _wg(arg)) or any(common.unfollowed_project_calls(project, _wg(c_)) for c_, p_ in conds)):
+            run.undecided("C01.R2", f, e.node, "the tile released is %s: it comes out of project code that is not followed (a bookkeeping object)" % show(arg)[:100],
+                          kind="released-tile-opaque")
+        elif arg != parent:
             run.violated("C01.R2", f, e.node, "the tile released is %s, expected the parent of the finished tile %s" % (show(arg), show(parent)),
                          kind="released-tile")
             verdict = "bad"
@@ -529,7 +578,7 @@ def _dispatcher(run, ev):
 
     # ---- R4 termination
     cfg = CFG(f.node)
-    breaks = [e for e in r.events if e.kind == "break" and ("loop", get_loop) in e.pc]
+    breaks = [e for e in r.events if e.kind == "break" and [c[1] for c in e.pc if c[0] == "loop"][-1:] == [get_loop]]      # (exits of the dispatch loop itself)
     want_term = sym.cmp("Eq", got, ("attr", ("sym", "self"), "_apex"))
     want_term2 = want_term
     bad = False
@@ -538,7 +587,16 @@ def _dispatcher(run, ev):
         bad = True
     for b in breaks:
         conds = [c for c in b.pc if c[0] != "loop"]
-        if not any((c == want_term or c == want_term2) and pol for c, pol in conds):
+        def _without_got(t):
+            if t == got:
+                return ("sym", "RECEIVED")
+            if isinstance(t, tuple):
+                return tuple(_without_got(x) if isinstance(x, tuple) else x for x in t)
+            return t
+        if not any((c == want_term or c == want_term2) and pol for c, pol in conds) and any(common.unfollowed_project_calls(project, _without_got(c)) for c, pol in conds if _without_got(c) != c):
+            run.undecided("C01.R4", f, b.node, "dispatch loop is left under %s: decided by project code that is not followed" % [show(c)[:80] for c, p in conds], kind="stop-condition-opaque")
+            bad = True
+        elif not any((c == want_term or c == want_term2) and pol for c, pol in conds):
             run.violated("C01.R4", f, b.node, "dispatch loop is left under %s; it must stop exactly when the completion of the apex "
                          "(self._apex) is received" % ([("" if p else "not ") + show(c)[:120] for c, p in conds] or "no condition"),
                          kind="stop-condition")
@@ -551,6 +609,9 @@ def _dispatcher(run, ev):
                       ast.unparse(get_events[0].node)[:60], kind="dispatch-receive-delegated")
         return
     loop_stmt = [s for s, b in enclosing_stmts(f.node, gnode.ast) if isinstance(s, ast.While)]
+    disp_nodes = [nd for k_, it_, nd in r.loops if k_ == get_loop]
+    if disp_nodes and any(s_ is disp_nodes[0] for s_ in loop_stmt):
+        loop_stmt = [disp_nodes[0]]
     if loop_stmt:
         w = loop_stmt[-1]
         if not (isinstance(w.test, ast.Constant) and w.test.value is True):
